@@ -13,6 +13,81 @@ use vp_core::serde_json::json;
 use vp_core::Run;
 use vp_core::Tier;
 
+/// Child mode: the enumerator at a small depth, one line per case BEFORE it runs, so that a
+/// process abort (a panic while unwinding, a violated `unsafe` precondition caught by the
+/// standard library) can be attributed to a case by the parent.
+fn canary_child(depth: usize) -> ! {
+    use std::io::Write;
+    let ops = vp_buffer_pure::ops();
+    let n = ops.len();
+    let out = std::io::stdout();
+    let mut failures = 0u64;
+    // refused operations panic by design (hundreds of thousands of times, always the same
+    // message): every distinct message is printed twice at most
+    static SEEN: Mutex<Option<std::collections::HashMap<String, u32>>> = Mutex::new(None);
+    std::panic::set_hook(Box::new(|info| {
+        let msg = format!("{}", info).replace('\n', " ");
+        let mut print = true;
+        if let Ok(mut g) = SEEN.lock() {
+            let c = g.get_or_insert_with(Default::default).entry(msg.clone()).or_insert(0);
+            *c += 1;
+            print = *c <= 2;
+        }
+        if print {
+            eprintln!("panicked: {}", msg);
+        }
+    }));
+    for store in vp_buffer_pure::stores() {
+        for d in 0..=depth {
+            for idx in 0..n.pow(d as u32) {
+                let mut i = idx;
+                let mut seq = Vec::with_capacity(d);
+                for _ in 0..d {
+                    seq.push(ops[i % n]);
+                    i /= n;
+                }
+                for take in [false, true] {
+                    {
+                        let mut o = out.lock();
+                        let _ = writeln!(o, "CASE {:?} {:?} take={}", store, seq, take);
+                        let _ = o.flush();
+                    }
+                    let r = std::panic::catch_unwind(|| vp_buffer_pure::run_case(store, &seq, take));
+                    if !matches!(r, Ok(Ok(_))) {
+                        failures += 1;
+                    }
+                }
+            }
+        }
+    }
+    println!("CANARY-DONE failures={}", failures);
+    std::process::exit(0)
+}
+
+/// Parent side: run the canary; a death by signal is a verdict about the library (the child
+/// executes nothing but the library and the enumerator), reported with the case it died in.
+fn canary(run: &Arc<Run>) -> bool {
+    let exe = std::env::current_exe().unwrap_or_else(|e| vp_core::machinery_error(&format!("current_exe: {}", e)));
+    let out = Command::new(exe).arg("canary-child").output().unwrap_or_else(|e| vp_core::machinery_error(&format!("cannot start the canary: {}", e)));
+    let stdout = String::from_utf8_lossy(&out.stdout);
+    let stderr = String::from_utf8_lossy(&out.stderr);
+    let cases = stdout.lines().filter(|l| l.starts_with("CASE ")).count() as u64;
+    run.add_evals(cases);
+    if stdout.contains("CANARY-DONE") && out.status.success() {
+        run.class("canary:completed", || json!({"cases": cases}));
+        return true;
+    }
+    let last = stdout.lines().rev().find(|l| l.starts_with("CASE ")).unwrap_or("(no case started)").to_string();
+    let why: Vec<&str> = stderr.lines().filter(|l| l.contains("panicked") || l.contains("precondition") || l.contains("abort")).collect();
+    let tail = why.iter().rev().take(4).rev().cloned().collect::<Vec<_>>().join(" | ");
+    run.violation(
+        "c19:process-abort-in-isolated-enumerator",
+        &format!("the isolated enumerator died ({:?}) in {}: {}", out.status, last, tail),
+        json!({"case": last, "status": format!("{:?}", out.status), "stderr_tail": tail}),
+    );
+    false
+}
+
 fn native(run: &Arc<Run>, depth: usize) {
     let ops = vp_buffer_pure::ops();
     let stores = vp_buffer_pure::stores();
@@ -83,19 +158,31 @@ fn sub(run: &Arc<Run>, name: &str, cmd: &mut Command, log: &str, results: &Mutex
 }
 
 fn main() {
+    if std::env::args().nth(1).as_deref() == Some("canary-child") {
+        canary_child(2);
+    }
     let run = Run::new("C19", "exploration");
     let thorough = run.tier == Tier::Thorough;
-    native(&run, if thorough { 4 } else { 3 });
+    // (a0) the same enumerator at depth 2 in a child process: an abort there is reported as a
+    // violation instead of taking this process down; the in-process sweep runs only if it survived
     let results: Mutex<Vec<vp_core::serde_json::Value>> = Mutex::new(Vec::new());
-    // (b) Miri: same enumerator bodies, out-of-bounds / use-after-free monitor
+    // (b) Miri: same enumerator bodies, out-of-bounds / use-after-free monitor; single-threaded,
+    // so it runs beside the native sweep
     let miri_depth = if thorough { "2" } else { "1" };
-    let mut c = Command::new("cargo");
-    c.current_dir("/verif/harness")
-        .env("CARGO_TARGET_DIR", "/verif/target-miri")
-        .env("MIRIFLAGS", "-Zmiri-disable-stacked-borrows")
-        .env("CARGO_NET_OFFLINE", "true")
-        .args(["+nightly", "miri", "run", "--offline", "-p", "vp-buffer-pure", "--bin", "buffer_enum", "--", miri_depth]);
-    sub(&run, &format!("miri:buffer-enumerator-depth-{}", miri_depth), &mut c, "/verif/target-asan/logs/miri.log", &results);
+    std::thread::scope(|sc| {
+        sc.spawn(|| {
+            let mut c = Command::new("cargo");
+            c.current_dir("/verif/harness")
+                .env("CARGO_TARGET_DIR", "/verif/target-miri")
+                .env("MIRIFLAGS", "-Zmiri-disable-stacked-borrows")
+                .env("CARGO_NET_OFFLINE", "true")
+                .args(["+nightly", "miri", "run", "--offline", "-p", "vp-buffer-pure", "--bin", "buffer_enum", "--", miri_depth]);
+            sub(&run, &format!("miri:buffer-enumerator-depth-{}", miri_depth), &mut c, "/verif/target-asan/logs/miri.log", &results);
+        });
+        if canary(&run) {
+            native(&run, if thorough { 4 } else { 3 });
+        }
+    });
     // (c) AddressSanitizer build of the enumerators (thorough)
     if thorough {
         let mut b = Command::new("cargo");
@@ -128,7 +215,7 @@ fn main() {
     run.assume("Miri runs with -Zmiri-disable-stacked-borrows: the property speaks about out-of-bounds and use-after-free accesses, not about the (experimental) aliasing model, which the library's deliberate 'two references, disjoint use' pattern does not satisfy");
     run.assume("Miri and AddressSanitizer are monitors on the enumerated executions, not deciding techniques; the sanitizer build instruments Rust code of the harness and the repository crates (not the C/C++ reference libraries, not std)");
     run.finish(
-        &format!("all operation sequences of length <= {} over 14 operations (write 0/1/3, extend, reader fill 0/1/3, four nested-view uses, early exit, query) x take/drop of the view, on every backing store (Vec with capacity 0..4 and length 0..2, ArrayVec<4>, slice, slice reference, capped views of each with every cap) against a Vec-with-capacity reference model with canaries; Miri on the same enumerator (depth {}); thorough: AddressSanitizer build of this enumerator and of the C05/C06/C07/C11/C16/C17 quick enumerators", if thorough { 4 } else { 3 }, miri_depth),
+        &format!("all operation sequences of length <= {} over 16 operations (write 0/1/3, extend, reader fill 0/1/3, a reader that claims one byte more than it was given, five nested-view uses incl. such a reader, early exit, query) x take/drop of the view, on every backing store (Vec with capacity 0..4 and length 0..2, ArrayVec<4>, slice, slice reference, capped views of each with every cap) against a Vec-with-capacity reference model with canaries (depth 2 first in a child process, so that an abort is attributed to a case); Miri on the same enumerator (depth {}); thorough: AddressSanitizer build of this enumerator and of the C05/C06/C07/C11/C16/C17 quick enumerators", if thorough { 4 } else { 3 }, miri_depth),
         true,
     );
 }
